@@ -32,7 +32,7 @@ CONSTANTS Elems,        \* element values
           MaxPool,      \* pool size bound
           MaxSteps,     \* number of library calls
           ExtraCap,     \* spare capacities the runtime may add on allocation, e.g. {0, 1}
-          Deviations,   \* subset of {"PushLastInPlace", "SortInPlace", "TakeAlias", "AppendInPlace", "FilterInPlace", "CollectAdopt"}
+          Deviations,   \* subset of {"PushLastInPlace", "SortInPlace", "TakeAlias", "AppendInPlace", "FilterInPlace", "CollectAdopt", "CollectAdoptNonEmpty", "ConcatAdopt"}
           InitShapes    \* set of <<c, off, len>>: initial values are arr[off : off+len] of an array [1..c]
 
 VARIABLES heap,   \* sequence of arrays; an array is a sequence of cells
@@ -98,7 +98,6 @@ DoMap(f, i)  == Fresh(Map(f, Cur(i)), H("Map", i, 0, 0, 0, f))
 DoMapi(f, i) == Fresh(Mapi(f, Cur(i)), H("Mapi", i, 0, 0, 0, f))
 DoCollect(f, i) == Fresh(Collect(f, Cur(i)), H("Collect", i, 0, 0, 0, f))
 DoPushHead(e, i) == Fresh(PushHead(e, Cur(i)), H("PushHead", i, 0, 0, e, ""))
-DoConcat(i, j) == Fresh(ConcatS(<<Cur(i), Cur(j)>>), H("Concat", i, j, 0, 0, ""))
 DoDistinct(i) == FreshNonNil(Distinct(Cur(i)), H("Distinct", i, 0, 0, 0, ""))
 
 \* append in place when there is spare capacity (what `append(s, ...)` does)
@@ -112,11 +111,25 @@ InPlaceAppend(i, items, rec) ==
                [v EXCEPT !.len = v.len + n, !.snap = Cur(i) \o items], rec)
   ELSE Fresh(Cur(i) \o items, rec)
 
+\* "avoid copying the first chunk": empty chunks are skipped and the FIRST NON-EMPTY one becomes the accumulator (the result is
+\* that very value when nothing follows it)
+AdoptFirstNonEmpty(i, j, rec) ==
+  IF pool[i].len > 0 THEN InPlaceAppend(i, Cur(j), rec)
+  ELSE IF pool[j].len > 0 THEN Produce(heap, [pool[j] EXCEPT !.snap = Cur(j)], rec)
+  ELSE Fresh(<<>>, rec)
+
 \* Collect whose callback hands back EXISTING values (e.g. `slice.Collect id [v_i; v_j]`): the chunks are live values
 DoCollectIdx(i, j) ==
   IF "CollectAdopt" \in Deviations
   THEN InPlaceAppend(i, Cur(j), H("CollectIdx", i, j, 0, 0, ""))     \* adopts the first chunk as its accumulator
+  ELSE IF "CollectAdoptNonEmpty" \in Deviations
+  THEN AdoptFirstNonEmpty(i, j, H("CollectIdx", i, j, 0, 0, ""))
   ELSE Fresh(Cur(i) \o Cur(j), H("CollectIdx", i, j, 0, 0, ""))
+
+DoConcat(i, j) ==
+  IF "ConcatAdopt" \in Deviations
+  THEN AdoptFirstNonEmpty(i, j, H("Concat", i, j, 0, 0, ""))
+  ELSE Fresh(ConcatS(<<Cur(i), Cur(j)>>), H("Concat", i, j, 0, 0, ""))
 
 DoPushLast(e, i) ==
   IF "PushLastInPlace" \in Deviations
